@@ -142,6 +142,7 @@ type handler struct {
 	consumer       hwebsocket.Consumer
 	receiver       hwebsocket.Receiver
 	disconnectChan chan error
+	frameChan      chan struct{}
 }
 
 func (h *handler) Handle(ctx context.Context) {
@@ -172,6 +173,16 @@ func (h *handler) Handle(ctx context.Context) {
 	h.dispatcher = scheduler
 	h.consumer = scheduler
 	defer scheduler.Close()
+
+	// The frame worker of a session only signals the frames to its participants' connections: the
+	// updates a scheduler holds are put on its queue, which may be full, by a goroutine of the
+	// connection, never by the session's one while it holds the session frame lock.
+	h.frameChan = make(chan struct{}, 1)
+	wg.Add(1)
+	go func() {
+		defer wg.Done()
+		h.startHandlingFrames(ctx)
+	}()
 
 	h.receiver = h.Handler.Receiver()
 	wg.Add(1)
@@ -222,8 +233,9 @@ func (h *handler) Handle(ctx context.Context) {
 		}
 	}
 
-	// The receiver may be blocked handing a message to the scheduler, whose queue nobody reads
-	// any more: keep taking messages (they are dropped) until both goroutines are gone.
+	// The receiver or the frame goroutine may be blocked handing a message to the scheduler, whose
+	// queue nobody reads any more: keep taking messages (they are dropped) until all goroutines
+	// are gone.
 	stopped := make(chan struct{})
 	go func() {
 		wg.Wait()
@@ -286,6 +298,26 @@ func (h *handler) startSending(ctx context.Context) {
 	}
 }
 
+// handleFrame is what a session calls on each of its frames. It never blocks.
+func (h *handler) handleFrame() {
+	select {
+	case h.frameChan <- struct{}{}:
+	default:
+	}
+}
+
+func (h *handler) startHandlingFrames(ctx context.Context) {
+	for {
+		select {
+		case <-ctx.Done():
+			return
+
+		case <-h.frameChan:
+			h.dispatcher.HandleFrame()
+		}
+	}
+}
+
 func (h *handler) startReceiving(ctx context.Context) {
 	for {
 		select {
@@ -322,7 +354,7 @@ func (h *handler) handleMessage(ctx context.Context, msg hwebsocket.Msg, respond
 
 	case hagallpb.MsgType_MSG_TYPE_PARTICIPANT_JOIN_REQUEST:
 		err = h.Handler.HandleParticipantJoin(ctx,
-			h.dispatcher.HandleFrame,
+			h.handleFrame,
 			responder,
 			msg,
 		)
